@@ -344,9 +344,11 @@ impl Components {
                 };
             }
 
+            // La energía saliente puede ser entregada (positiva) o absorbida (negativa): se reparte según su magnitud
             let mut q_out_tot = vec![0.0; self.num_steps()];
             for q_out in q_out_by_srv.values() {
-                q_out_tot = vecvecsum(&*q_out_tot, q_out);
+                let q_out_abs: Vec<f32> = q_out.iter().map(|v| v.abs()).collect();
+                q_out_tot = vecvecsum(&*q_out_tot, &q_out_abs);
             }
 
             if aux_tot.iter().sum::<f32>() > 0.0 && q_out_tot.iter().sum::<f32>() == 0.0 {
@@ -360,7 +362,7 @@ impl Components {
                 let values = q_out_frac_by_srv[service]
                     .iter()
                     .zip(q_out_tot.iter())
-                    .map(|(val, tot)| if tot > &0.0 { val / tot } else { 0.0 })
+                    .map(|(val, tot)| if tot > &0.0 { val.abs() / tot } else { 0.0 })
                     .collect();
                 q_out_frac_by_srv.insert(*service, values);
             }
